@@ -18,6 +18,105 @@ EXPLANATION = (
 ASSUMPTIONS = ["the environment variable is inherited across exec unchanged by the .do script", "unwind edges excluded"]
 
 
+def _cycle_var_names(b):
+    return {s for (_, _, s, named) in str_consts(b) if named and "ENV_CYCLES" in named}
+
+
+def _family(prog, b, depth=2):
+    """b, its closures, and the cycles:: helpers it calls (with their closures)."""
+    out = {b.key: b}
+    work = [(b, depth)]
+    while work:
+        x, d = work.pop()
+        for k, c in prog.bodies.items():
+            if k.startswith(x.key + "::{") and k not in out:
+                out[k] = c
+                work.append((c, d))
+        if d > 0:
+            for i in BA.of(x).all_calls():
+                for p_ in callee_paths(x.blocks[i]["term"]):
+                    cb = prog.bodies.get(p_)
+                    if cb is not None and p_.startswith("cycles::") and p_ not in out:
+                        out[p_] = cb
+                        work.append((cb, d - 1))
+    return list(out.values())
+
+
+def _sep_of(x, t, n):
+    """The separator operand of a split/join call as a string (a char constant, a string literal, or a local
+    that is a plain copy / reference of one)."""
+    a = t["args"][n] if len(t.get("args", [])) > n else None
+    if a is None:
+        return None
+    ba = BA.of(x)
+    for _ in range(6):
+        v = const_int(a)
+        if v is not None:
+            return chr(v)
+        sv = const_str(a)
+        if sv is not None:
+            return sv
+        l = op_local(a)
+        if l is None:
+            return None
+        d = ba.single_def(l)
+        if d is None or d[0] != "stmt":
+            return None
+        rv = d[3]
+        if rv["k"] == "use":
+            a = rv["op"]
+        elif rv["k"] == "ref" and rv["place"]["p"] in ([], ["deref"]):
+            a = {"copy": {"l": rv["place"]["l"], "p": []}}
+        else:
+            return None
+    return None
+
+
+def _cycle_representation(prog, b):
+    rep = {"split": set(), "join": set(), "raw": [], "set": False}
+    for x in _family(prog, b):
+        ba = BA.of(x)
+        for i in ba.all_calls():
+            t = x.blocks[i]["term"]
+            ps = callee_paths(t)
+            if any(re.fullmatch(r"core::str::<impl str>::(split|rsplit|split_terminator)", p_) for p_ in ps):
+                rep["split"].add(_sep_of(x, t, 1))
+            elif any(re.fullmatch(r"alloc::slice::<impl \[T\]>::join|alloc::str::<impl \[S\]>::join", p_) for p_ in ps):
+                rep["join"].add(_sep_of(x, t, 1))
+            elif any(re.fullmatch(r"core::str::<impl str>::(contains|find|rfind|starts_with|ends_with|matches|match_indices)", p_) for p_ in ps):
+                # only a test on the variable's own text counts (not, say, an assertion about the id)
+                envs = {x.blocks[j]["term"]["dest"]["l"] for j in ba.calls(r"std::env::(var|var_os)")}
+                if envs:
+                    tn = taint(x, seeds=envs, mode="derived")
+                    r0 = op_local(t["args"][0]) if t.get("args") else None
+                    if r0 is not None and (r0 in tn or any(y in tn for y in ba.ref_chain(r0))):
+                        rep["raw"].append(common.short(ps[0]))
+            elif any(re.fullmatch(r"std::collections::hash::set::HashSet::(contains|insert)|alloc::collections::btree::set::BTreeSet::(contains|insert)", p_) for p_ in ps):
+                rep["set"] = True
+    return rep
+
+
+def _rep_s(rep):
+    return "split%s join%s%s%s" % (sorted(x or "?" for x in rep["split"]), sorted(x or "?" for x in rep["join"]), " raw-string test " + ",".join(rep["raw"]) if rep["raw"] else "", "" if rep["set"] else " no set membership")
+
+
+def _reads_cycle_var(prog, b, depth=1):
+    """Does `b` read the cycle variable: an env::var / var_os call on the ENV_CYCLES constant here, or in a
+    cycles:: helper it calls?"""
+    ba = BA.of(b)
+    for i in ba.calls(r"std::env::(var|var_os)"):
+        c = op_const(b.blocks[i]["term"]["args"][0]) if b.blocks[i]["term"].get("args") else None
+        if c is not None and ("ENV_CYCLES" in (c.get("named") or "") or c.get("str") == "REDO_CYCLES"):
+            return True
+    if depth > 0:
+        for i in ba.all_calls():
+            for p_ in callee_paths(b.blocks[i]["term"]):
+                cb = prog.bodies.get(p_)
+                if cb is not None and p_.startswith("cycles::") and cb.key != b.key and _reads_cycle_var(prog, cb, depth - 1):
+                    return True
+    return False
+
+
 def run(ctx):
     prog = ctx.prog
     ctx.rule("R12.1", "Lock::try_lock and Lock::wait_lock pass Lock::check before fcntl; check calls cycles::check with the lock's id; cycles::check returns CyclicDependency on membership")
@@ -56,7 +155,7 @@ def run(ctx):
     if cont:
         sw, t_t, f_t, _ = cont[0]
         errs = common.blocks_with_agg(cyc, r"error::RedoErrorKind", "CyclicDependency")
-        ok = bool(errs) and yba.path([t_t], yba.returns(), avoid=frozenset(errs), incl=True) is None and bool(yba.calls(r"cycles::get"))
+        ok = bool(errs) and yba.path([t_t], yba.returns(), avoid=frozenset(errs), incl=True) is None and _reads_cycle_var(prog, cyc)
     ctx.ob("R12.1", "cycles::check|member=>CyclicDependency", ok, where=cyc.span, detail="membership in cycles::get() returns CyclicDependency")
 
     # ---- R12.2: every forked child that runs while its parent keeps the target's lock gets that lock's id
@@ -122,12 +221,23 @@ def run(ctx):
     fid = prog.one(r"state::Lock::file_id")
     ok = any(place_fields(p)[-1:] == ["state::Lock.fid"] for blk in fid.blocks for s in blk["stmts"] if s["s"] == "assign" for p in __import__("core").rvalue_places(s["rv"]))
     ctx.ob("R12.2", "Lock::file_id|returns-fid", ok, where=fid.span, detail="file_id() returns the id the lock was created with")
-    names = {}
-    for nm in ("get", "add"):
-        b = prog.one(r"cycles::" + nm)
-        names[nm] = {s for (_, _, s, named) in str_consts(b) if named == "cycles::ENV_CYCLES"} | {named for (_, _, s, named) in str_consts(b) if named and "ENV_CYCLES" in named}
+    # the reader of the inherited set (cycles::get, or cycles::check / cycles::add themselves when get is folded into them)
+    # and the writer (cycles::add) must name the same variable
     add_b = prog.one(r"cycles::add")
-    ok = bool(names["get"]) and bool(names["add"]) and bool(BA.of(add_b).calls(r"std::env::set_var")) and bool(BA.of(add_b).calls(r"cycles::get"))
+    readers = prog.find(r"cycles::get") or [prog.one(r"cycles::check")]
+    names = {"get": set(), "add": _cycle_var_names(add_b)}
+    for b in readers:
+        names["get"] |= _cycle_var_names(b)
+    ok = bool(names["get"]) and names["get"] == names["add"] and bool(BA.of(add_b).calls(r"std::env::set_var")) and _reads_cycle_var(prog, add_b)
+    # ... and the same representation: writer and reader split the variable at the same separator into a set, the
+    # writer joins with that separator, and neither tests membership on the raw string
+    chk_b = prog.one(r"cycles::check")
+    rep_a, rep_c = _cycle_representation(prog, add_b), _cycle_representation(prog, chk_b)
+    ok_rep = bool(rep_a["split"]) and rep_a["split"] == rep_c["split"] and rep_a["join"] == rep_a["split"] and not rep_a["raw"] and not rep_c["raw"] \
+        and rep_a["set"] and rep_c["set"]
+    ctx.ob("R12.2", "cycles::add/check|same-representation", ok_rep, where=add_b.span,
+           detail="both split REDO_CYCLES at %s into a set; add joins with the same separator" % sorted(rep_a["split"]) if ok_rep else
+           "writer and reader of REDO_CYCLES do not agree on its representation (add: %s, check: %s): an id that is a substring of another, or an id written in another form, is not found and the cycle becomes a wait for a lock an ancestor holds" % (_rep_s(rep_a), _rep_s(rep_c)))
     ctx.ob("R12.2", "cycles::add/get|same-variable", ok, where=add_b.span, detail="add() extends get() and writes it back to the same variable (%s)" % sorted(names["add"] | names["get"]))
 
     # ---- R12.3
